@@ -333,10 +333,11 @@ def pSteps : List String → P (List (Fmt × Rounding × Overflow))
       pure ((d, r, o) :: tl)
   | _ => throw "CH: steps"
 
-/-- `CH <fsrc> [codes] (<route> <fdst> <r> <o>)* | s n f [codes']` — a chain of conversions. -/
+/-- `CH <srcmode> <fsrc> [codes] (<route> <fdst> <r> <o>)* | s n f [codes']` — a chain of conversions starting from a
+source created raw or by value. -/
 def opCH (args obs : List String) : P String := do
   match args with
-  | ss :: ns :: fs :: cs :: steps =>
+  | _mode :: ss :: ns :: fs :: cs :: steps =>
     let src ← pFmt ss ns fs
     let cs ← pList pInt cs
     let steps ← pSteps steps
